@@ -167,11 +167,11 @@ func (w *W) Sample(v interface{}) {
 	w.mu.Unlock()
 }
 
-// SampleDue is true for the first evaluation and then every stride-th one, while samples are still wanted.
+// SampleDue is true when samples are still wanted and at least stride evaluations were made per sample taken so far.
 func (w *W) SampleDue(stride int64) bool {
 	w.mu.Lock()
 	defer w.mu.Unlock()
-	return len(w.res.Samples) < maxSamples && w.res.Evaluations%stride == 1
+	return len(w.res.Samples) < maxSamples && w.res.Evaluations >= int64(len(w.res.Samples))*stride
 }
 
 func (w *W) WantSample() bool {
